@@ -38,7 +38,7 @@ def spec_priority(e):
          canaries=['canary.always_allowed', 'canary.never_patch'],
          assumes=['M1 BOUNDS: the outcomes mapping has 0..3 entries (0..2 entries: every exception representative of '
                   'pyvc.stubs.exception_reps over AdmissionError/PermanentError/TemporaryError, AdmissionError.code None or int; '
-                  '3 entries: the three named classes + an unrelated Exception, int codes); warnings: a list of 0..2 strings; '
+                  '3 entries: the three named classes + an unrelated Exception, int codes); warnings: a list of 0..2 strings (0 or 2 when there are 2+ outcomes); '
                   'the JSON patch is one of 2 concrete lists (json/base64 are C code). Messages, codes, warning texts are symbolic.'])
 def M1(vc):
     """
@@ -77,7 +77,7 @@ def M1(vc):
                 exc.code = PLANTED_CODE
         excs.append(exc)
         outcomes[f'h{i}'] = execution.Outcome(final=True, exception=exc)
-    n_warn = vc.nondet(3, '#warnings')
+    n_warn = vc.nondet(3, '#warnings') if n <= 1 else 2 * vc.nondet(2, '#warnings/2')
     jsonpatch = M1_PATCHES[vc.nondet(len(M1_PATCHES), 'jsonpatch')]
     warnings = [vc.str(f'warning[{j}]') for j in range(n_warn)]
     request = {'apiVersion': 'admission.k8s.io/v1', 'kind': 'AdmissionReview', 'request': {'uid': 'uid1'}}
@@ -88,7 +88,8 @@ def M1(vc):
 
     errors = [e for e in excs if e is not None]
     vc.ensure('allowed_iff_no_exception', payload_out['allowed'] is (not errors))
-    vc.canary('canary.always_allowed', payload_out['allowed'] is True)
+    if n <= 1:      # canaries are evaluated on the small configurations only (each refutation costs a model)
+        vc.canary('canary.always_allowed', payload_out['allowed'] is True)
     status = payload_out.get('status')
     kind = None
     if errors:
@@ -109,7 +110,8 @@ def M1(vc):
               and And(*[Eq(a, b) for a, b in zip(got_w, warnings)], True))
     has_patch = 'patch' in payload_out
     vc.ensure('patch_iff_nonempty_b64_json', has_patch == bool(jsonpatch))
-    vc.canary('canary.never_patch', not has_patch)
+    if n <= 1:
+        vc.canary('canary.never_patch', not has_patch)
     if has_patch:
         try:
             decoded = json.loads(base64.b64decode(payload_out['patch'], validate=True).decode('utf-8'))
@@ -117,3 +119,134 @@ def M1(vc):
             decoded = Ellipsis
         vc.ensure('patch_iff_nonempty_b64_json', decoded == jsonpatch and payload_out.get('patchType') == 'JSONPatch')
     return ('response', payload_out['allowed'], kind, status.get('code') if status else None, len(got_w), has_patch)
+
+
+# =============================================================================================== R5
+WT = causes.WebhookType
+OPS = ('CREATE', 'UPDATE', 'DELETE', 'CONNECT')            # reviews.Operation
+# handler.operations: None (= all operations) or a NON-EMPTY collection of operations (kopf.on._verify_operations
+# rejects empty ones): every non-empty subset, as lists, and as the frozensets the deprecated `operation=` makes.
+R5_OPERATIONS = [None] + [list(c) if i % 2 == 0 else frozenset(c)
+                          for i, c in enumerate(c for r in range(1, 5) for c in itertools.combinations(OPS, r))]
+
+
+class _Container:
+    """`excluded`: an arbitrary container -- membership of the one id in play is a free boolean."""
+    def __init__(self, member):
+        self.member = member
+
+    def __contains__(self, x):
+        return bool(self.member)
+
+
+def _fin_where(x, pred):
+    """pred(x) for a value drawn with vc.fin, as a formula over its alternatives (no case split)."""
+    if isinstance(x, SFin):
+        from pyvc.values import _UNRESOLVED
+        return pred(x._chosen) if x._chosen is not _UNRESOLVED else x._where(pred)
+    return pred(x)
+
+
+@harness('R5', targets=['kopf._core.intents.registries.WebhooksRegistry.iter_handlers',
+                        'kopf._core.intents.registries._matches_subresource'], props=['C18'],
+         clauses=['excluded', 'webhook_id_and_type', 'operation', 'subresource_and_filters', 'mutating_on_delete',
+                  'selected_when_all_match', 'frame'],
+         canaries=['canary.yields_all', 'canary.never_yields'],
+         trusted=['registries.match(handler, cause) == _matches_subresource(handler, cause) and <the other filters> (contract R4); '
+                  'the other filters are an arbitrary boolean of (handler, cause)'])
+def R5(vc):
+    """
+    WebhooksRegistry.iter_handlers -- loop contract: ONE arbitrary registered handler h (the loop keeps no state
+    between iterations), so the clauses hold for every handler of a registry of any size.  h is yielded at most once, and
+      yielded  =>  h.id not excluded                                                            [excluded]
+      yielded  =>  (no webhook id hinted or == h.id) and (no webhook type hinted or == h.reason) [webhook_id_and_type]
+      yielded  =>  h declares no operations, or the review's operation is among them
+                   (a review without an operation is left unconstrained)                        [operation]
+      yielded  =>  h.subresource == '*' or == the review's subresource (None == None), and the
+                   other filters match                                                          [subresource_and_filters]
+      a MUTATING h on a DELETE review: yielded => DELETE is among its declared operations
+                   (unset = not opted in)                                                       [mutating_on_delete]
+      all of the above hold, the review has an operation or h declares none, and -- for a mutating h on DELETE --
+                   h.operations == {'DELETE'}   =>   yielded                                    [selected_when_all_match]
+      (a mutating handler with a mixed set containing DELETE on a DELETE review is deliberately left unconstrained).
+    `match` runs by contract: the real `_matches_subresource` (second target, inlined through the loader) and a free
+    boolean for the label/annotation/field/callback filters.
+    """
+    from pyvc.loader import _STOP, vc_is
+    h = handlers.WebhookHandler(
+        id=vc.fin('h.id', ['h', 'g']), fn=Opaque('fn'), param=None, errors=None, timeout=None, retries=None, backoff=None,
+        selector=None, labels=None, annotations=None, when=None, field=None, value=None,
+        reason=vc.fin('h.reason', [WT.VALIDATING, WT.MUTATING]),
+        operations=vc.fin('h.operations', R5_OPERATIONS),
+        subresource=vc.fin('h.subresource', [None, '*', 'status', 'scale']),
+        persistent=None, side_effects=None, ignore_failures=None)
+    cause = causes.WebhookCause(
+        logger=NullLogger(), indices=Opaque('indices'), memo=Opaque('memo'), resource=Opaque('resource'),
+        patch=Opaque('patch'), body=Opaque('body'), dryrun=False,
+        reason=vc.fin('cause.reason', [None, WT.VALIDATING, WT.MUTATING]),
+        webhook=vc.fin('cause.webhook', [None, 'h', 'g', 'other']),
+        headers={}, sslpeer={}, userinfo={}, warnings=[],
+        operation=vc.fin('cause.operation', [None] + list(OPS)),
+        subresource=vc.fin('cause.subresource', [None, 'status', 'scale', '*']))
+    excluded = vc.bool('h.id in excluded')
+    others = vc.bool('other filters match(h, cause)')
+    match_calls = []
+    sub = vc.load('kopf._core.intents.registries', '_matches_subresource')
+
+    def match(handler, cause):
+        match_calls.append((handler, cause))
+        return And(sub.fn(handler, cause), others)
+    vc.used('registries.match', 'R4')
+    reg = registries.WebhooksRegistry()
+    reg._handlers = Opaque('handlers-list')
+    yielded = []
+
+    def element(loc, iterable):
+        vc.ensure('frame', iterable is reg._handlers)
+        if vc.nondet(2, 'exhausted?') == 0:
+            return _STOP
+        return h
+
+    def spec_and_check(loc):
+        if loc.get('handler') is not h:
+            return True
+        hops, op = h.operations, cause.operation         # hops is NOT resolved: predicates over the finite alternatives
+        declared = _fin_where(hops, lambda m: m is not None)
+        op_known = Not(vc_is(op, None))
+        op_among = Or(*[And(Eq(op, o), _fin_where(hops, lambda m, o=o: m is not None and o in m)) for o in OPS], False)
+        is_delete = Eq(op, 'DELETE')
+        mutating = Eq(h.reason, WT.MUTATING)
+        only_delete = _fin_where(hops, lambda m: m is not None and set(m) == {'DELETE'})
+        has_delete = _fin_where(hops, lambda m: m is not None and 'DELETE' in m)
+        id_ok = Or(vc_is(cause.webhook, None), Eq(cause.webhook, h.id))
+        type_ok = Or(vc_is(cause.reason, None), Eq(cause.reason, h.reason))
+        sub_ok = Or(Eq(h.subresource, '*'), Eq(h.subresource, cause.subresource))
+        got = len(yielded) == 1
+        vc.ensure('frame', len(yielded) <= 1 and all(y is h for y in yielded))
+        for mh, mc in match_calls:
+            vc.ensure('frame', mh is h and mc is cause)
+        rest = And(Not(excluded), id_ok, type_ok, sub_ok, others, Implies(And(mutating, is_delete), has_delete))
+        vc.ensure('excluded', Implies(got, Not(excluded)))
+        vc.ensure('webhook_id_and_type', Implies(got, And(id_ok, type_ok)))
+        vc.ensure('operation', Implies(got, Or(Not(declared), Not(op_known), op_among)),
+                  excuse={'F-C18-1': And(got, declared, op_known, Not(op_among), rest)})
+        vc.ensure('subresource_and_filters', Implies(got, And(sub_ok, others)))
+        vc.ensure('mutating_on_delete', Implies(And(got, mutating, is_delete), has_delete))
+        must = And(Not(excluded), id_ok, type_ok, sub_ok, others, Or(Not(declared), And(op_known, op_among)),
+                   Implies(And(mutating, is_delete), only_delete))
+        vc.ensure('selected_when_all_match', Implies(must, got))
+        vc.canary('canary.yields_all', got)
+        vc.canary('canary.never_yields', not got)
+        return True
+    first = [True]
+
+    def inv(loc):       # called at the loop entry (nothing to state) and at the back edge of the iteration for h
+        if first[0]:
+            first[0] = False
+            return True
+        return spec_and_check(loc)
+    ld = vc.load('kopf._core.intents.registries', 'WebhooksRegistry.iter_handlers', stubs={'match': match},
+                 loops={1: LoopSpec('for handler in self._handlers', invariant=inv, element=element)})
+    for y in ld.fn(reg, cause, _Container(excluded)):
+        yielded.append(y)
+    return ('done', len(yielded))
